@@ -7,8 +7,16 @@
 //! the Python classes call); for one value per distinct JSON shape every single-node corruption
 //! of a stated list is fed to `from_json_dict`.
 //!
+//! Oracles: (1) round trip: from_json_dict(to_json_dict(v)) == v with equal to_bytes and hash,
+//! to_json_dict stable, also through json.dumps/json.loads; for leaf types, combinators and Coin
+//! the JSON tree must equal the form documented by /repo's Python tests, written down
+//! independently in `registry.rs`; (2) corruption: the corrupted tree is rejected, or accepted as
+//! a value whose own JSON tree says the same thing (`jtree::denote_eq`), which itself round-trips
+//! and which the wire decoder accepts too. `C20_SELFTEST=1 c20` runs the oracle against
+//! deliberately wrong conversions (`selftest.rs`).
+//!
 //! The interpreter lock makes one process single-threaded, so the enumeration is cut into jobs
-//! (type x slice of tape positions) that are handed to worker processes (this binary started with
+//! (type x slice of tape positions [x first write]) that are handed to worker processes (this binary started with
 //! C20_WORKER=1, each with its own interpreter). Results are merged in job order; the set of cases
 //! and all counts do not depend on the number of workers or on scheduling.
 
@@ -83,15 +91,15 @@ fn plan(reg: &[TypeEntry], thorough: bool) -> (Vec<Job>, Vec<(u64, u64)>) {
 }
 
 /// second level (thorough tier): one group of jobs per shape-changing first write
-fn plan_second(firsts: &[(usize, (usize, Vec<u8>, usize))], costs: &[(u64, u64)]) -> Vec<Job> {
+fn plan_second(firsts: &[(usize, (usize, Vec<u8>, usize, usize))], costs: &[(u64, u64)]) -> Vec<Job> {
     let mut jobs = Vec::new();
-    for (type_idx, (p, w, n)) in firsts {
-        let (nodes, per_value) = costs[*type_idx];
-        let span = n.saturating_sub(p + w.len()) as u64;
-        let est = span * 17 * per_value * 3 + (span / 6 + 1) * nodes * 14 * per_value / 2;
+    for (type_idx, (p, w, n, e)) in firsts {
+        let (_, per_value) = costs[*type_idx];
+        let span = e.saturating_sub(p + w.len()) as u64;
+        let est = span * 17 * per_value * 3;
         let parts = (est.div_ceil(JOB_TARGET)).clamp(1, span.max(1).min(512)) as usize;
         for part in 0..parts {
-            jobs.push(Job { type_idx: *type_idx, cfg: JobCfg { thorough: true, part, parts, first: Some((*p, w.clone(), *n)) }, est: est / parts as u64 });
+            jobs.push(Job { type_idx: *type_idx, cfg: JobCfg { thorough: true, part, parts, first: Some((*p, w.clone(), *n, *e)) }, est: est / parts as u64 });
         }
     }
     sort_jobs(&mut jobs);
@@ -201,7 +209,7 @@ fn run(rep: &Report) {
          distinct = distinct (type, value) pairs",
         slack = core::TAPE_SLACK,
         win = if thorough { "all types" } else { "quick tier: only builders consuming <= 160 tape bytes" },
-        second = if thorough { "; second level: behind every such one-write tape that produced a new JSON shape (tape re-sized to what the builder then consumes), every second write of the same alphabet at every later position" } else { "" }
+        second = if thorough { "; second level (round trips only): behind every such one-write tape that produced a new JSON shape (tape re-sized to what the builder then consumes), every second write of the same alphabet at every position of the stretch right behind the first write that the new structure consumes (additional consumption + 16 bytes)" } else { "" }
     ));
     rep.assume("equality of values is the PartialEq of /repo's types; byte encoding and hash are Streamable::to_bytes / Streamable::hash of /repo");
     rep.assume("from_json_dict / to_json_dict are called through the traits ToJsonDict / FromJsonDict, which is what the generated Python methods call; the classmethod wrapper itself (from_parent for subclasses) is not exercised");
@@ -216,7 +224,7 @@ fn run(rep: &Report) {
     eprintln!("C20 timing: +first level {:.1}s", t0.elapsed().as_secs_f64());
     if thorough {
         // second level: behind every first write that produced a new JSON shape
-        let mut firsts: Vec<(usize, (usize, Vec<u8>, usize))> = Vec::new();
+        let mut firsts: Vec<(usize, (usize, Vec<u8>, usize, usize))> = Vec::new();
         for (job, acc) in jobs.iter().zip(&results) {
             if let Some(acc) = acc {
                 firsts.extend(acc.firsts.iter().cloned().map(|f| (job.type_idx, f)));
